@@ -404,7 +404,8 @@ def materialize(w: World, root: str, step_clock: int) -> list[str]:
 
 def run_mypy(root: str, cache_dir: str, extra_args: list[str], *, targets: list[str] | None = None,
              crash_at: int = -1, fail_ops: list[int] | None = None, want_oplog: bool = False,
-             env_extra: dict | None = None, timeout: int = 600, scratch: str | None = None) -> dict:
+             env_extra: dict | None = None, timeout: int = 600, scratch: str | None = None,
+             sched_log: bool = False, sched_seed: int | None = None) -> dict:
     """One observed mypy run in a fresh process.  Returns the child's result dict; a simulated kill gives
     {"killed": True, "ops": [...]}."""
     scratch = scratch or os.path.dirname(cache_dir.rstrip("/"))
@@ -417,8 +418,13 @@ def run_mypy(root: str, cache_dir: str, extra_args: list[str], *, targets: list[
             os.remove(p)
     args = ["--cache-dir", cache_dir, "--no-error-summary", "--no-color-output", "--show-traceback"] + list(extra_args) + (targets or ["."])
     with open(spec_path, "w") as f:
-        json.dump({"args": args, "result": res_path, "oplog": oplog, "crash_at": crash_at, "fail_ops": fail_ops or []}, f)
+        slog = os.path.join(scratch, f"sched-{tag}.log") if sched_log else None
+        json.dump({"args": args, "result": res_path, "oplog": oplog, "crash_at": crash_at, "fail_ops": fail_ops or [],
+                   "sched_log": slog, "sched_seed": sched_seed}, f)
     env = repo_env(env_extra)
+    if sched_seed is not None:
+        env["VERIF_SCHED_SEED"] = str(sched_seed)
+        env["PYTHONPATH"] = os.path.join(VERIF, "harness", "shim") + os.pathsep + env["PYTHONPATH"]
     env["MYPY_CACHE_DIR"] = cache_dir
     env.pop("MYPYPATH", None)
     try:
@@ -440,6 +446,9 @@ def run_mypy(root: str, cache_dir: str, extra_args: list[str], *, targets: list[
     res = json.load(open(res_path))
     os.remove(res_path)
     res["ops"] = ops
+    if sched_log and slog and os.path.exists(slog):
+        res["sched"] = open(slog).read().splitlines()
+        os.remove(slog)
     return res
 
 
